@@ -332,6 +332,8 @@ let decode_cmd (f : string list) : cmd =
   | "edit" ->
       CEdit ((if a 1 = "_" then None else Some (str_of_hex (a 1))), n_of_decimal (a 2),
              ascii_str ("x" ^ a 2 ^ " edited"))
+  | "squash" ->
+      CSquash (strs_of_hexlist (a 1), str_of_hex (a 2), n_of_decimal (a 3), ascii_str ("x" ^ a 3 ^ " squashed"))
   | "rebase" -> (
       match a 1 with
       | "patch" -> CRebase (TPatch (str_of_hex (a 2)))
